@@ -8,8 +8,11 @@ A case is an xylab case (see vlib/xylab.py) plus
     cut_q      0..999    which step date of the episode is the cut t: index cut_q*len(eligible)//1000 among the
                          eligible step dates (every step date but the last one whose offset is >= the earliest valid
                          transformer_end, see te_min)
-    cut_pref   'any' | 'x-gap'   'x-gap' restricts the eligible dates to those at which the input feature table has
-                         no row or a NaN cell (fill patterns at the cut), when there are any
+    cut_skip   0..3      the first cut_skip eligible step dates are avoided when later ones exist (a cut at the reset or
+                         at the first step has no trade before it)
+    cut_pref   'any' | 'x-gap' | 'y-nan'   'x-gap' restricts the eligible dates to those at which the input feature table
+                         has no row or a NaN cell (fill patterns at the cut), 'y-nan' to those at which a price is
+                         missing, when there are any
     te_mode    'at-t' (transformer_end = the date of t) | 'day-before' | 'te-min' (earliest valid) | 'between'
     te_q       0..999    position of transformer_end between te_min and the date of t for te_mode 'between'
     np_seed    numpy seed set right before every reset (the start of an episode of `episode_length` steps is sampled)
@@ -28,7 +31,7 @@ run_xy(case):
      first / last valid rows and the fill patterns up to t are those of T1.
   3. env1 = build_env(case, T1), env2 = build_env(case, T2); both are reset (same numpy seed) and receive the same
      actions for every call landing at or before t. Compared bitwise: observation, reward, done, executed trades,
-     holdings, NLV, clock, track-record entry of every call; then the whole track record, the recorded state history,
+     holdings, NLV, clock, quotes in the exchange (assets and rate), track-record entry of every call; then the whole track record, the recorded state history,
      env.X.loc[:t], env.Y.loc[:t] and the reward scale.
 Nothing after t is executed or looked at.
 """
@@ -40,6 +43,7 @@ from hypothesis import strategies as st
 
 from vlib.runner import Result
 from vlib import xylab
+from tradingenv.contracts import Rate
 
 RULE = ("xy: an xylab case (calendar NYSE/LSE/SSE/24-7, Y 30-150 rows x 1-3 assets with NaN cells and runs, X 1-4 features on the "
         "same / shifted / sparser index with NaNs, rate same/sparse/shifted/None, window 1-30 biased <= 6, stride, transformer "
@@ -85,10 +89,11 @@ def cases(draw, tier="quick"):
     c = draw(xylab.cases(tier))
     c["fold2"] = None
     c["transformer_end"] = None       # resolved by run_xy from te_mode
-    # one case in four: features with a level far from 0 relative to their spread and a transformer,
-    # so that statistics fitted on rows after t would move every published value
-    c["cut_q"] = draw(st.one_of(st.just(0), st.integers(0, 999), st.integers(0, 999), st.just(999)))
-    c["cut_pref"] = draw(st.sampled_from(["any", "any", "x-gap"]))
+    if not any(c["weights"][0]):
+        c["weights"][0][0] = 0.25          # max_long >= 0.5 in every xylab case
+    c["cut_q"] = draw(st.one_of(st.integers(0, 999), st.integers(0, 999), st.integers(0, 999), st.just(999)))
+    c["cut_skip"] = draw(st.sampled_from([0, 1, 2, 2, 3, 3]))
+    c["cut_pref"] = draw(st.sampled_from(["any", "any", "x-gap", "x-gap", "y-nan"]))
     c["te_mode"] = draw(st.sampled_from(["at-t", "at-t", "day-before", "te-min", "between"]))
     c["te_q"] = draw(st.integers(0, 999))
     c["np_seed"] = draw(st.integers(0, 2 ** 31 - 1))
@@ -221,7 +226,7 @@ def entry_key(reb):
     }
 
 
-def snapshot(env, obs, reward, done, info):
+def snapshot(env, obs, reward, done, info, contracts):
     br = env.broker
     try:
         nlv = hexf(br.net_liquidation_value(raise_if_broke=False))
@@ -236,6 +241,7 @@ def snapshot(env, obs, reward, done, info):
         "holdings": sorted((c.symbol, hexf(q)) for c, q in br.holdings_quantity.items()),
         "nlv": nlv,
         "now": str(env.now()),
+        "quotes": [(c.symbol, hexf(env.exchange[c].bid_price), hexf(env.exchange[c].ask_price)) for c in contracts],
         "track_record_len": ntr,
         "track_record_last": entry_key(br.track_record[-1]) if ntr else None,
     }
@@ -270,11 +276,12 @@ def probe_run(case, tables):
 def twin_run(env, case, actions, ncalls):
     """reset + (ncalls - 1) steps. Returns the trace; an exception ends it with an 'exception' entry."""
     trace = []
+    contracts = list(env.Y.columns) + [Rate(xylab.RATE_NAME if case["rate_days"] is not None else "Zero Rate")]
     try:
         obs = reset_env(env, case)
     except Exception as exc:  # noqa
         return [{"exception": "%s: %s" % (type(exc).__name__, str(exc)[:120])}]
-    trace.append(snapshot(env, obs, None, env._done, {}))
+    trace.append(snapshot(env, obs, None, env._done, {}, contracts))
     for a in actions[:ncalls - 1]:
         if env._done:
             break
@@ -283,7 +290,7 @@ def twin_run(env, case, actions, ncalls):
         except Exception as exc:  # noqa
             trace.append({"exception": "%s: %s" % (type(exc).__name__, str(exc)[:120])})
             break
-        trace.append(snapshot(env, obs, reward, done, info))
+        trace.append(snapshot(env, obs, reward, done, info, contracts))
     return trace
 
 
@@ -336,8 +343,16 @@ def run_xy(case):
     def gap_at(ts):
         return ts not in Xin.index or bool(np.isnan(Xin.loc[ts].values).any())
 
-    if case["cut_pref"] == "x-gap":
-        gaps = [j for j in eligible if gap_at(dates[j])]
+    Yin = T1["Y"]
+
+    def price_nan_at(ts):
+        return ts in Yin.index and bool(np.isnan(Yin.loc[ts].values).any())
+
+    skip = case["cut_skip"]
+    eligible = eligible[skip:] if len(eligible) > skip else eligible[-1:]
+    if case["cut_pref"] in ("x-gap", "y-nan"):
+        pick = gap_at if case["cut_pref"] == "x-gap" else price_nan_at
+        gaps = [j for j in eligible if pick(dates[j])]
         if gaps:
             eligible = gaps
     jc = eligible[case["cut_q"] * len(eligible) // 1000]
@@ -427,6 +442,8 @@ def run_xy(case):
         res.tag("rate-rewritten-in-next-step")
     if gap_at(t):
         res.tag("feature-gap-at-t")
+    if price_nan_at(t):
+        res.tag("price-nan-at-t")
     if traded:
         res.tag("traded-at-or-before-t")
     res.nontrivial = bool(counts["x_next"] and counts["y_next"] and traded and
